@@ -100,6 +100,7 @@ UserFns == [
   U_AND    |-> Fn("U_AND", N_and, <<TBool, TBool>>, TBool, TRUE),
   U_OR     |-> Fn("U_OR", N_or, <<TBool, TBool>>, TBool, TRUE),
   U_NOT    |-> Fn("U_NOT", N_not, <<TBool>>, TBool, FALSE),
+  U_PAIR   |-> Fn("U_PAIR", N_pair, <<TNum, TNum>>, TList(TNum), FALSE),   \* the list of its two arguments
   U_GPOLY  |-> Fn("U_GPOLY", N_g, <<A>>, TNum, FALSE),            \* g :: a -> num   = 1
   U_GLIST  |-> Fn("U_GLIST", N_g, <<LA>>, TStr, FALSE),           \* g :: list[a] -> str = "L"
   U_GNUM   |-> Fn("U_GNUM", N_g, <<TNum>>, TNum, FALSE)           \* g :: num -> num = 3 (mono)
@@ -223,6 +224,7 @@ ApplyBuiltin(id, a) ==
     [] id = "U_H" -> PV(a[1].vals[FieldIdx(a[1].ty.fs, N_a)])
     [] id = "U_F" -> PNum(NInt(Len(a[1].els) + Len(a[2].els)))
     [] id = "U_NOT" -> PV(VBool(~a[1].v))
+    [] id = "U_PAIR" -> PV(VList(TList(TNum), <<a[1], a[2]>>))
     [] id = "U_GPOLY" -> PNum(NInt(1))
     [] id = "U_GLIST" -> PV(VStr(<<76>>))
     [] id = "U_GNUM" -> PNum(NInt(3))
